@@ -308,11 +308,14 @@ Proof. exact (read_revisions_sorted hash). Qed.
     [apply_plan] = the file selection of [migrateApplyRun], [migrate_set] = [migrateSetRun];
     proofs: Exec/StatusProofs.v).
 
-    (H0) A database without a revisions table is reported exactly like an empty table on a
-    clean database: in particular the report starts at the latest checkpoint, like apply. *)
+    (H0) A database without a revisions table is reported exactly like one with an empty
+    table, whatever else the database holds: in particular the report starts at the latest
+    checkpoint, like apply. (Before the repair C11-status-not-clean-empty-table the empty
+    table of a database holding other tables was refused as "not clean": Report built its
+    executor without allow-dirty although it executes nothing.) *)
 Theorem C11_status_no_table :
-  forall (dirty : bool) (all : list file) (revs : list rev),
-  report false dirty all revs = report true false all [].
+  forall (dirty dirty' : bool) (all : list file) (revs : list rev),
+  report false dirty all revs = report true dirty' all [].
 Proof. exact (report_no_table hash). Qed.
 
 (** ... spelled out: with a checkpoint in the directory the report on a never-migrated
@@ -343,7 +346,7 @@ Theorem C11_status_fields :
   forall (dirty : bool) (all : list file) (revs : list rev) (s : mstatus hash),
   report true dirty all revs = SOk s ->
   s_applied s = revs /\
-  match fst (pending (mkCfg Linear None false dirty) all revs) with
+  match fst (pending (mkCfg Linear None true dirty) all revs) with
   | PFiles p =>
       p <> [] /\ s_pending s = p /\ s_ooo s = [] /\ s_ok s = false /\
       s_next s = NextVer (f_version (hd (mkFile [] [] false) p)) /\
@@ -370,7 +373,7 @@ Proof. exact (report_no_panic hash). Qed.
 
 Theorem C11_status_error :
   forall (dirty : bool) (all : list file) (revs : list rev) (e : presult),
-  report true dirty all revs = SErr e -> fst (pending (mkCfg Linear None false dirty) all revs) = e.
+  report true dirty all revs = SErr e -> fst (pending (mkCfg Linear None true dirty) all revs) = e.
 Proof. exact (report_err hash). Qed.
 
 (** (H2) Status agrees with what apply decides, for EVERY execution order: whenever status
@@ -602,7 +605,7 @@ Example C11_status_no_table_nonvacuous :
   let s := st_of (report false true ex_ck []) in
   s_pending s = [k3; f4] /\ s_available s = [k3; f4] /\ s_next s = NextVer [51%N] /\
   s_current s = CurNone /\ s_ok s = false /\
-  report (hash := unit) true true ex_ck [] = SErr PNotClean.
+  report (hash := unit) true true ex_ck [] = report false false ex_ck [].
 Proof. vm_compute. repeat split; reflexivity. Qed.
 
 Example C11_status_fresh_checkpoint_nonvacuous :
